@@ -16,5 +16,5 @@ Extraction "model_c10.ml"
   in_rowsb contains_tol constrs_of tighten relax norm1 empty_cert thin_cert
   feasb wf_rowsb chk_infeasible chk_empty chk_member chk_dual chk_bounded chk_optimal chk_near chk_unbounded
   lp_search classify judge referee rejected chk_face_ray find_face_ray
-  tau_margin tol_member delta_obj
+  tau_margin tol_member delta_obj tol_thin tol_for
   cheb_rows cheb_sys cheb_obj.
